@@ -1,5 +1,7 @@
 import Xp.Model.C09
+import Xp.Model.C09Skel
 import Xp.Proofs.C09World
+import Xp.Gen.C09Skel
 /-
 C09 — connection details reach only their owner's secret, filtered, from the right XR.
 Theorems over Xp/Model/C09.lean for ALL detail maps, key filters and pre-existing secrets, and
@@ -1070,11 +1072,11 @@ theorem foldDetails_provenance (ts : List Tmpl) (acc d : Data) (h : foldDetails 
           · rw [tmplCfg_values] at h2
             exact Or.inr ⟨t, List.mem_cons_self .., by simp [tmplValues, h2]⟩
           · refine Or.inr ⟨t, List.mem_cons_self .., ?_⟩
-            unfold tmplFieldAt at h2
+            simp only [tmplFieldAt, fieldReader] at h2
             split at h2
-            · simp only [Option.some.injEq] at h2
+            · simp only [fromFieldPath, Option.some.injEq] at h2
               simp [tmplValues, h2]
-            · cases h2
+            · simp [fromFieldPath] at h2
         · exact Or.inr ⟨t', List.mem_cons_of_mem _ ht', hv⟩
 
 /-- **Only values produced by the composition for this XR.** After a reconcile (P&T or
@@ -1161,5 +1163,207 @@ example :
     let foreign : Tmpl := ⟨"cd-2", .other, some [("user", "theirs")], false, [⟨"FromConnectionSecretKey", "", some "user", none, none⟩]⟩
     flowDetails true [own, foreign] = some [("user", "mine")] ∧ flowDetails false [own, foreign] = none ∧
     flowDetails false [own] = some [("user", "mine")] := by decide
+
+/-! ### the claim reconciler around the propagator (claim/reconciler.go with its default options) -/
+
+/-- **A claim that is being deleted touches no secret.** Whatever the claim records about earlier
+propagations (`propagated`), whatever is stored under the name its writeConnectionSecretToRef
+gives — a secret controlled by ANOTHER claim included — the store is what it was, no call is
+addressed to a secret and nothing is stamped. (The claim's own secret is left to Kubernetes
+garbage collection.) -/
+theorem claimRec_deleted_keeps_world (e : EnvW) (w : World) (c : ClaimIn) (h : c.deleted = true) :
+    (claimRec e w c).1 = w ∧ (claimRec e w c).2.out = .nop ∧ (claimRec e w c).2.stamped = false := by
+  simp [claimRec, h]
+
+/-- a claim whose XR is not Ready (or does not exist) touches no secret either -/
+theorem claimRec_waiting_keeps_world (e : EnvW) (w : World) (c : ClaimIn)
+    (h : ∀ x, c.xr = some x → x.ready = false) :
+    (claimRec e w c).1 = w ∧ (claimRec e w c).2.out = .nop ∧ (claimRec e w c).2.stamped = false := by
+  unfold claimRec
+  split
+  · exact ⟨rfl, rfl, rfl⟩
+  · split
+    · exact ⟨rfl, rfl, rfl⟩
+    · rename_i x hx
+      simp [h x hx]
+
+/-- **Only the claim's own secret**: one reconcile of a claim (any environment) changes no secret
+but the one named by the claim's writeConnectionSecretToRef in the claim's namespace. -/
+theorem claimRec_frame (e : EnvW) (w : World) (c : ClaimIn) (k : Key)
+    (h : c.cref.map (fun n => (c.cns, n)) ≠ some k) : wget (claimRec e w c).1 k = wget w k := by
+  unfold claimRec
+  split
+  · rfl
+  · split
+    · rfl
+    · split
+      · rfl
+      · exact stepW_frame [] e w _ k (by simpa [Op.target] using h)
+
+/-- **… and only if the claim may control it**: a secret controlled by another UID (another
+claim, the XR, a former incarnation of this claim) or uncontrolled and not of the connection type
+is bit for bit what it was after any reconcile of the claim — live or being deleted. -/
+theorem claimRec_foreign_untouched (e : EnvW) (w : World) (c : ClaimIn) (k : Key) (s : ASecret)
+    (hs : wget w k = some s) (hc : mayControl c.me s = false) : wget (claimRec e w c).1 k = some s := by
+  unfold claimRec
+  split
+  · exact hs
+  · split
+    · exact hs
+    · split
+      · exact hs
+      · exact stepW_keeps [] e w _ k s hs (by simpa [Op.me] using hc)
+
+/-- **A claim's secret changes only by an exact copy of a secret its Ready XR controls.** If any
+secret differs after a reconcile of the claim, the claim is live, its XR is Ready, the secret is
+the claim's, the secret the XR references is controlled by the XR's UID and the claim's secret now
+holds exactly its data. -/
+theorem claimRec_copy (e : EnvW) (w : World) (c : ClaimIn) (k : Key)
+    (h : wget (claimRec e w c).1 k ≠ wget w k) :
+    c.deleted = false ∧ ∃ x dn sk fs, c.xr = some x ∧ x.ready = true ∧ c.cref = some dn ∧ k = (c.cns, dn) ∧
+      x.ref = some sk ∧ wget w sk = some fs ∧ fs.ctrl = some x.uid ∧
+      wget (claimRec e w c).1 k = some (written c.me fs.data) := by
+  unfold claimRec at h ⊢
+  split at h
+  · exact absurd rfl h
+  · rename_i hd
+    split at h
+    · exact absurd rfl h
+    · rename_i x hx
+      split at h
+      · exact absurd rfl h
+      · rename_i hr
+        refine ⟨by simpa using hd, x, ?_⟩
+        have ht := (stepW_owner [] e w _ k h).1
+        simp only [Op.target] at ht
+        cases hcr : c.cref with
+        | none => simp [hcr] at ht
+        | some dn =>
+          simp only [hcr, Option.map_some, Option.some.injEq] at ht
+          cases hxr : x.ref with
+          | none =>
+            rw [hcr, hxr] at h
+            exact absurd rfl h
+          | some sk =>
+            subst ht
+            rw [hcr, hxr] at h
+            obtain ⟨fs, h1, h2, h3⟩ := stepW_prop_copy [] e w c.me c.cns dn x.uid sk h
+            refine ⟨dn, sk, fs, hx, by simpa using hr, rfl, rfl, rfl, h1, h2, ?_⟩
+            simp only [hd, hr]
+            simpa using h3
+
+/-- **lastPublishedTime is read by nothing**: whatever the claim and its XR record about earlier
+propagations / publications (unset, earlier, equal, later), a reconcile compares the two secrets. -/
+theorem claimRec_ignores_times (e : EnvW) (w : World) (c : ClaimIn) (t t' : Nat) :
+    claimRec e w { c with propagated := t, xr := c.xr.map fun x => { x with published := t' } } = claimRec e w c := by
+  rcases c with ⟨me, cns, cref, del, xr, p⟩
+  cases xr with
+  | none => rfl
+  | some x => rfl
+
+/-- a deleted claim that once propagated, whose reference now names a secret of ANOTHER claim -/
+example :
+    let w : World := [(("ns", "conn"), written "uid-of-claim-a" [("password", "a")])]
+    (claimRec {} w ⟨"uid-of-claim-b", "ns", some "conn", true, none, 3⟩).1 = w := by decide
+
+/-- a live claim whose secret was deleted after it propagated (claim stamped later than the XR):
+the copy is made again -/
+example :
+    let w : World := [(("xrns", "x"), written "xr-uid" [("user", "u")])]
+    let r := claimRec {} w ⟨"c-uid", "ns", some "conn", false, some ⟨"xr-uid", some ("xrns", "x"), true, 1⟩, 2⟩
+    wget r.1 ("ns", "conn") = some (written "c-uid" [("user", "u")]) ∧ r.2.stamped = true := by decide
+
+/-! ### the secret fetcher and the field-path reader -/
+
+/-- the fetcher reads nothing but the secret its owner references -/
+theorem fetchA_reads_only_referenced (w w' : World) (ref : Option Key) (f : Option ECls)
+    (h : ∀ k, ref = some k → wget w k = wget w' k) : fetchA w ref f = fetchA w' ref f := by
+  cases ref with
+  | none => rfl
+  | some k => simp [fetchA, h k rfl]
+
+/-- what it returns is nothing, or the data of that secret -/
+theorem fetchA_values (w : World) (k : Key) (f : Option ECls) (d : Data) (h : fetchA w (some k) f = some d) :
+    d = [] ∨ ∃ s, wget w k = some s ∧ d = s.data := by
+  unfold fetchA at h
+  cases f with
+  | some c =>
+    cases c <;> simp at h <;> exact Or.inl h
+  | none =>
+    simp only [Option.some.injEq] at h
+    cases hg : wget w k with
+    | none => simp [hg] at h; exact Or.inl h
+    | some s => simp [hg] at h; exact Or.inr ⟨s, rfl, h.symm⟩
+
+/-- an owner without a reference has no details and no error; a NotFound is not an error -/
+theorem fetchA_lenient (w : World) (k : Key) : fetchA w none none = some [] ∧ fetchA w (some k) (some .notFound) = some [] :=
+  ⟨rfl, rfl⟩
+
+/-- fromFieldPath: a string is taken as it is, any other value as its JSON text, and only a path
+that designates nothing is an error (the detail is then skipped by `extract`) -/
+theorem fromFieldPath_spec (v : Option FVal) :
+    (∀ s, v = some (.str s) → fromFieldPath v = some s) ∧
+    (∀ x, v = some x → (∀ s, x ≠ .str s) → fromFieldPath v = some (marshal x)) ∧
+    (fromFieldPath v = none ↔ v = none) := by
+  refine ⟨?_, ?_, ?_⟩
+  · intro s h; subst h; rfl
+  · intro x h hx; subst h
+    cases x with
+    | str s => exact absurd rfl (hx s)
+    | int n => rfl
+    | bool b => rfl
+    | strs l => rfl
+  · cases v with
+    | none => simp [fromFieldPath]
+    | some x => cases x <;> simp [fromFieldPath]
+
+/-- a FromFieldPath detail over a typed field: present ⇒ published under the detail's name with
+the string / the JSON text; absent ⇒ skipped without an error -/
+theorem extract_fromPath_typed (conn : Data) (va : String → Option FVal) (name p : String) (acc : Data)
+    (hn : name ≠ "") :
+    extract conn (fieldReader va) [⟨"FromFieldPath", name, none, some p, none⟩] acc =
+      match va p with
+      | none => some acc
+      | some (.str s) => some (dset acc name s)
+      | some x => some (dset acc name (marshal x)) := by
+  rw [extract_fromPath conn (fieldReader va) name (some p) acc hn]
+  simp only [Option.map_some, fieldReader]
+  cases va p with
+  | none => rfl
+  | some x => cases x <;> rfl
+
+example : fromFieldPath (some (.int 5432)) = some "5432" ∧ fromFieldPath (some (.strs ["a", "b"])) = some "[\"a\",\"b\"]" ∧
+    fromFieldPath (some (.bool true)) = some "true" ∧ fromFieldPath (some (.str "db")) = some "db" := by decide
+
+/-! ### regenerated call skeletons (Xp.Gen.C09Skel, extracted from the current tree on every run)
+equal the skeletons declared next to the model (Model/C09Skel.lean) -/
+
+theorem skeleton_new_publisher : Xp.Gen.c09SkelNewPublisher = skelNewPublisher := by decide
+theorem skeleton_new_propagator : Xp.Gen.c09SkelNewPropagator = skelNewPropagator := by decide
+theorem skeleton_patching_apply : Xp.Gen.c09SkelPatchingApply = skelPatchingApply := by decide
+theorem skeleton_updating_apply : Xp.Gen.c09SkelUpdatingApply = skelUpdatingApply := by decide
+theorem skeleton_must_be_controllable : Xp.Gen.c09SkelMustBeControllable = skelMustBeControllable := by decide
+theorem skeleton_publish : Xp.Gen.c09SkelPublish = skelPublish := by decide
+theorem skeleton_unpublish : Xp.Gen.c09SkelUnpublish = skelUnpublish := by decide
+theorem skeleton_propagate : Xp.Gen.c09SkelPropagate = skelPropagate := by decide
+theorem skeleton_claim_nop_unpublish : Xp.Gen.c09SkelClaimNopUnpublish = skelClaimNopUnpublish := by decide
+theorem skeleton_fetch_chain : Xp.Gen.c09SkelFetchChain = skelFetchChain := by decide
+theorem skeleton_fetch_secret : Xp.Gen.c09SkelFetchSecret = skelFetchSecret := by decide
+theorem skeleton_extract : Xp.Gen.c09SkelExtract = skelExtract := by decide
+theorem skeleton_from_field_path : Xp.Gen.c09SkelFromFieldPath = skelFromFieldPath := by decide
+theorem skeleton_extract_configs : Xp.Gen.c09SkelExtractConfigs = skelExtractConfigs := by decide
+theorem skeleton_detail_type : Xp.Gen.c09SkelDetailType = skelDetailType := by decide
+theorem skeleton_pt_compose : Xp.Gen.c09SkelPTCompose = skelPTCompose := by decide
+theorem skeleton_fn_observe : Xp.Gen.c09SkelFnObserve = skelFnObserve := by decide
+theorem skeleton_fn_compose : Xp.Gen.c09SkelFnCompose = skelFnCompose := by decide
+theorem skeleton_xr_reconcile : Xp.Gen.c09SkelXRReconcile = skelXRReconcile := by decide
+theorem skeleton_claim_reconcile : Xp.Gen.c09SkelClaimReconcile = skelClaimReconcile := by decide
+theorem skeleton_wiring : Xp.Gen.c09SkelWiring = skelWiring := by decide
+/-- the claim reconciler is built with the unpublisher / propagator the model mirrors -/
+theorem default_claim_unpublisher : Xp.Gen.c09ClaimDefaultUnpublisher = claimDefaultUnpublisher := by decide
+theorem default_claim_propagator : Xp.Gen.c09ClaimDefaultPropagator = claimDefaultPropagator := by decide
+/-- the constants the model carries as literals -/
+theorem const_connection_type : Xp.Gen.c09SecretTypeConnection = connType := by decide
+theorem const_detail_types : Xp.Gen.c09DetailTypes = ["FromConnectionSecretKey", "FromFieldPath", "FromValue"] := by decide
 
 end Xp.C09
